@@ -353,7 +353,64 @@ pub struct Counters {
     pub fault: std::sync::atomic::AtomicUsize,
 }
 
+/// A history of twelve versions (band ids with two significant digits and every digit), each
+/// holding a block of its own; single versions, a prefix and nothing (gc) are deleted.
+pub fn long_history_cases() -> Vec<(Violation, Value)> {
+    let mut out = Vec::new();
+    let scratch = Scratch::new("c05long");
+    let trees: Vec<crate::tree::Tree> = (0..12u32)
+        .map(|i| {
+            let mut t = crate::common::tree_t1();
+            t.insert("own".into(), crate::tree::Node::file(format!("content only version {i} has, {}", "x".repeat(i as usize)).as_bytes(), crate::tree::T0 + 300 + i as i64));
+            t
+        })
+        .collect();
+    let arch = scratch.fresh("a");
+    run::do_create_archive(&arch);
+    for t in &trees {
+        let src = scratch.fresh("s");
+        crate::tree::materialize(t, &src);
+        let o = run::do_backup(&arch, &src, &crate::run::BOpts::new(1000, 1 << 20, 8), run::NOHOOK, Flavor::Current);
+        if !o.clean_success() {
+            out.push((Violation::new("C05:backup-failed", format!("building the twelve-version history: {}", o.describe())), json!({"kind": "c05-long"})));
+            return out;
+        }
+        let _ = std::fs::remove_dir_all(&src);
+    }
+    let base = Snap::load(&arch);
+    let subs: Vec<Vec<u32>> = vec![vec![3], vec![9], vec![10], vec![11], (0..9).collect(), (0..11).collect(), vec![]];
+    for sub in subs {
+        let dir = scratch.fresh("d");
+        base.store(&dir);
+        let o = run::do_delete(&dir, &sub, false, false, run::NOHOOK, Flavor::Current, None);
+        let after = Snap::load(&dir);
+        let at = format!("twelve versions b0000..b0011, delete {sub:?}: {}", o.op.describe());
+        let want: Vec<u32> = (0..12).filter(|b| !sub.contains(b)).collect();
+        if !o.op.is_ok() || after.band_ids() != want {
+            out.push((Violation::new("C05:wrong-versions-after-delete:long-history", format!("{at}: versions afterwards {:?}, expected {want:?}", after.band_ids())), json!({"kind": "c05-long"})));
+            continue;
+        }
+        for b in &want {
+            let diffs = restore_exact(&dir, *b, &trees[*b as usize], &scratch, Cmp::FULL);
+            if !diffs.is_empty() {
+                out.push((Violation::new("C05:kept-version-no-longer-restores:long-history", format!("{at}: b{b:04}: {diffs:?}")), json!({"kind": "c05-long"})));
+            }
+        }
+        let problems = common::ref_scan(&after, &want);
+        let referenced = common::referenced(&after, &want);
+        let garbage = present_blocks(&after).into_iter().filter(|b| !referenced.contains(b)).count();
+        if !problems.is_empty() || garbage > 0 {
+            out.push((Violation::new("C05:blocks-wrong-after-delete:long-history", format!("{at}: {garbage} unreferenced blocks left; {problems:?}")), json!({"kind": "c05-long"})));
+        }
+        let _ = std::fs::remove_dir_all(&dir);
+    }
+    out
+}
+
 pub fn run(report: &Report, budget: &Budget) {
+    for (v, c) in long_history_cases() {
+        report.violation(&v, &c);
+    }
     let thorough = report.thorough();
     let (depth, deep_depth) = if thorough { (2, 1) } else { (1, 1) };
     let counters = Counters::default();
